@@ -358,6 +358,7 @@ def run_scenario(sc):
     nlocks = install_simlocks(sched)
     if nlocks:
         stats["simlocks_installed"] = nlocks
+    sim.between = lambda: sched.yield_point(("gen_created", 0, 0))
     tenv = ThreadEnv()
     sysv = sim.v["sys"]
     sysv.mod.ENV = tenv
